@@ -437,6 +437,86 @@ HARMLESS = {
 }
 
 
+# ------------------------------------------------------------------ additive catalog (ABI-compatible additions)
+
+
+def a_add_function(prog, rng):
+    q = prog.clone()
+    g = progen.Gen(rng, progen.GenOpts(lang=q.lang), q.nonce)
+    g.p = q
+    g.k = 200000 + rng.randrange(100000)
+    f = g.gen_function()
+    return q, Expect("add-function", affected=[f.name], added=[f.name])
+
+
+def a_add_variable(prog, rng):
+    q = prog.clone()
+    g = progen.Gen(rng, progen.GenOpts(lang=q.lang), q.nonce)
+    g.p = q
+    g.k = 300000 + rng.randrange(100000)
+    v = g.gen_variable()
+    return q, Expect("add-variable", affected=[v.name], added=[v.name])
+
+
+ADDITIVE = {"add-function": a_add_function, "add-variable": a_add_variable}
+
+# ------------------------------------------------------------------ symbol-level catalog (shared objects only)
+
+
+def s_add_default_version(prog, rng):
+    c = [f for f in prog.exported_functions() if not f.version and not f.weak and not f.visibility]
+    if not c:
+        return None
+    f = rng.choice(c)
+    q = prog.clone()
+    f2 = [x for x in q.functions if x.name == f.name][0]
+    f2.version = ("VERS_%s_1" % q.nonce.upper(), True)
+    return q, Expect("add-default-version", affected=[f.name])
+
+
+def s_change_version_node(prog, rng):
+    c = [f for f in prog.exported_functions() if f.version and f.version[1]]
+    if not c:
+        return None
+    f = rng.choice(c)
+    q = prog.clone()
+    f2 = [x for x in q.functions if x.name == f.name][0]
+    f2.version = ("VERS_%s_9" % q.nonce.upper(), True)
+    return q, Expect("change-version-node", affected=[f.name], removed=[f.name], added=[f.name])
+
+
+def s_add_alias(prog, rng):
+    c = [f for f in prog.exported_functions() if not f.version or f.version[1]]
+    if not c:
+        return None
+    f = rng.choice(c)
+    q = prog.clone()
+    f2 = [x for x in q.functions if x.name == f.name][0]
+    an = "%s_nal%d" % (f.name, rng.randrange(100))
+    f2.aliases.append((an, False))
+    return q, Expect("add-alias", affected=[f.name], added=[an])
+
+
+def s_remove_alias(prog, rng):
+    c = [f for f in prog.exported_functions() if f.aliases]
+    if not c:
+        return None
+    f = rng.choice(c)
+    q = prog.clone()
+    f2 = [x for x in q.functions if x.name == f.name][0]
+    an, _w = f2.aliases.pop()
+    return q, Expect("remove-alias", affected=[f.name], removed=[an])
+
+
+SYMBOL = {"add-default-version": s_add_default_version, "change-version-node": s_change_version_node,
+          "add-alias": s_add_alias, "remove-alias": s_remove_alias}
+
+MIXED = {}
+MIXED.update(BREAKING)
+MIXED.update(ADDITIVE)
+MIXED.update(HARMLESS)
+
+
 def apply_random(catalog, prog, rng, kinds=None, tries=8):
     names = list(kinds or catalog)
     for _ in range(tries):
